@@ -108,7 +108,7 @@ CLAIMS = {
         technique="tolerant normal-form comparison of sizing formulas; provenance of geometry arguments; effect analysis",
         text="Formula/determinism part only: the three sizing computations are compared in normal form (floats to 1e-12 relative) "
              "with the formulas quoted in the property (Bloom bits/hashes incl. float32 narrowing and the zero-hash rejection; "
-             "count-min width/depth; cuckoo fingerprint bits and its inverse); they have no write effect and call only pure "
+             "count-min width/depth on every constructor path that keeps the caller's accuracy pair; cuckoo fingerprint bits and its inverse); they have no write effect and call only pure "
              "functions; every write of the Bloom geometry goes through _set_values with arguments originating from "
              "_get_optimized_params applied to the stored (est_elements, rate), in constructors and all loaders, which is what makes a "
              "reload reproduce the geometry. NOT decided: the numeric inequalities (7% allowance, 2/width <= eps, ...) under "
@@ -129,7 +129,9 @@ CLAIMS = {
              "digest/unpack/ord/list/map/range/encode and the wrapped function; exactly depth values are appended to a fresh list; "
              "depth flows only into the loop bound (prefix stability as non-interference); FNV values are masked to 64/32 bits and "
              "digests read as 'Q' of the first 8 bytes; constants and kernel are the published FNV-1a with basis + 31*seed and the "
-             "index as seed; str keys are utf-8 encoded before the first digest / mapped through ord for FNV. Purity of "
+             "index as seed; str keys are utf-8 encoded before the first digest / mapped through ord for FNV; the int decorator hashes the key "
+             "itself in round 0 and the lower-case hex of the previous round's value afterwards (generic iteration instantiated at round 0 "
+             "and at a later round). Purity of "
              "user-supplied callables is a contract, not decided.",
         design_ref="DESIGN.md section 4 C18"),
     "C11": dict(
@@ -138,7 +140,8 @@ CLAIMS = {
              "file in that order; close syncs before releasing; the rewritten bytes are exactly slot 1 of the footer (computed from the "
              "struct literals); after creation only OR-stores and that slot write touch the file; every public mutator of persisted state "
              "reaches the sync; every path handed to open/copyfile/_load is the resolved path without lossy projection; no rename / "
-             "replace / unlink is reachable without a guard comparing the backing path with the resolved destination; reopening "
+             "replace / unlink is reachable without a guard comparing the backing path with the resolved destination; every open-for-writing "
+             "the constructor reaches discards what the path held before (mode w/x, O_TRUNC/O_EXCL, truncate to 0); reopening "
              "restores the count. NOT decided: crash atomicity of the 8-byte write, page-cache / msync behaviour (OS semantics).",
         design_ref="DESIGN.md section 4 C11"),
     "C03": dict(
@@ -171,17 +174,20 @@ CLAIMS = {
     "C15": dict(
         technique="guard dominance by ordering sets on every bucket-level append; candidate relation from the ownership analysis; who-may-write",
         text="Structural part: every append of an entry to a bucket is dominated by len(bucket) < bucket_size (or sits in a loader loop over "
-             "range(bucket_size)); the candidate buckets are recomputed from the fingerprint and the current capacity only (no "
+             "range(bucket_size)), in-place extension (+=) of anything that may alias a bucket included; the candidate buckets are recomputed from the fingerprint and the current capacity only (no "
              "remembered indices); every sink goes to a candidate bucket of the entry sunk and the eviction loop recomputes the next "
              "index from the entry now in hand; callers pass an entry with its own candidate indices; insertion only on the not-present "
              "branch; counting bins are never built with a possibly-zero count and a decrement is followed by the ==0 -> remove test; "
-             "capacity is written only by constructor/loaders and as capacity * expansion_rate. Tables loaded from foreign files are "
+             "capacity is written only by constructor/loaders and as capacity * expansion_rate (a value handed to a private helper is "
+             "decided at its call sites). Tables loaded from foreign files are "
              "outside the claim.",
         design_ref="DESIGN.md section 4 C15"),
     "C04": dict(
         technique="three-point index-range lattice with assume-guarantee at calls; counter pairing; guard dominance; call-order rules",
         text="THIN SLICE, claimed at the weakest level: decides (a) elements_added moves +1 per slot filled, -1 per slot emptied, 0 when "
-             "absent, reset with the arrays; (b) every index into the remainder array and the three bit vectors is in [0, size) on "
+             "absent, reset with the arrays; every method that assigns q, r, size, mod_size or an array (private helpers looked through) "
+             "leaves size = 1<<q, mod_size = size-1, r = 32-q, arrays of that length (fresh, or adopted together with the donor's quotient), "
+             "and refreshes every field the constructor derives from the quotient; (b) every index into the remainder array and the three bit vectors is in [0, size) on "
              "every path (masked / mod size / range(size) / 32-bit-hash quotient / guarded location / inductive loop variable; every "
              "call passes in-range index arguments); (c) _add is reached only under 'not contained'; (d) resize reads the hashes before "
              "replacing the arrays and re-inserts all, merge re-inserts all; (e) four necessary conditions of the layout logic that are "
